@@ -102,6 +102,31 @@ def is_alias(t) -> bool:
 _KNOWN = []
 
 
+def _is_namedtuple(ci) -> bool:
+    return any((isinstance(b, ast.Name) and b.id == "NamedTuple") or (isinstance(b, ast.Attribute) and b.attr == "NamedTuple") for b in ci.bases)
+
+
+def record_fields(t):
+    """{field: argument term} of a dataclass / NamedTuple instance constructed in this evaluation (every field given), else None."""
+    if not (isinstance(t, App) and t.op == "new" and isinstance(t.args[0], Ref) and t.args[0].kind == "class"):
+        return None
+    ci = t.args[0].obj
+    if "dataclass" not in ci.decorators and not _is_namedtuple(ci):
+        return None
+    fields = [n.target.id for n in ci.node.body if isinstance(n, ast.AnnAssign) and isinstance(n.target, ast.Name)]
+    pos = [a for a in t.args[2:] if not (isinstance(a, App) and a.op == "kw")]
+    kws = {a.args[0].v: a.args[1] for a in t.args[2:] if isinstance(a, App) and a.op == "kw"}
+    out = {}
+    for i, f in enumerate(fields):
+        if i < len(pos):
+            out[f] = pos[i]
+        elif f in kws:
+            out[f] = kws[f]
+        else:
+            return None
+    return out
+
+
 def _known_functions():
     """Qualified names of the functions that existed when the rules were confirmed (reference/known_functions.json, regenerated
     by tools/make_known_functions.py); None when the file is absent.  Used only to choose between following a call and keeping it
@@ -505,19 +530,10 @@ class Evaluator:
             return base.args[0] if attr == "tag" else base.args[1]
         if isinstance(base, Const):
             return App("cmeth", (base, Const(attr)), node)
-        # dataclass instances created in this evaluation: fields come from the constructor arguments
-        if isinstance(base, App) and base.op == "new" and isinstance(base.args[0], Ref) and base.args[0].kind == "class" \
-                and "dataclass" in base.args[0].obj.decorators:
-            dc = base.args[0].obj
-            fields = [n.target.id for n in dc.node.body if isinstance(n, ast.AnnAssign) and isinstance(n.target, ast.Name)]
-            if attr in fields:
-                pos = [a for a in base.args[2:] if not (isinstance(a, App) and a.op == "kw")]
-                for a in base.args[2:]:
-                    if isinstance(a, App) and a.op == "kw" and a.args[0] == Const(attr):
-                        return a.args[1]
-                i = fields.index(attr)
-                if i < len(pos):
-                    return pos[i]
+        # dataclass / NamedTuple instances created in this evaluation: fields come from the constructor arguments
+        rec = record_fields(base)
+        if rec is not None and attr in rec:
+            return rec[attr]
         # instance of a repository class: self / new objects
         ci = self.class_of_instance(base, fr)
         if ci is not None:
@@ -1311,6 +1327,8 @@ class Evaluator:
         return val if not ctor else Const(None)
 
     def is_new_helper(self, fi: FuncInfo) -> bool:
+        if fi.fq in getattr(self, "never_inline", ()):
+            return False  # the rule has a stand-in for it, or examines it on its own
         if self.known is None or fi.fq in self.known or "abstractmethod" in fi.decorators \
                 or (fi.name.startswith("__") and fi.name.endswith("__")):
             return False
@@ -1386,6 +1404,8 @@ class Evaluator:
         elif isinstance(target, (ast.Tuple, ast.List)):
             items = list_items(value)
             n = len(target.elts)
+            if items is None and record_fields(value) is not None and _is_namedtuple(value.args[0].obj):
+                items = list(record_fields(value).values())  # a, b = SomeNamedTuple(x, y)
             if items is None and isinstance(value, App) and value.op == "elem" and isinstance(value.args[0], App):
                 src = value.args[0]
                 if src.op == "call:enumerate" and n == 2 and len(src.args) in (1, 2):
